@@ -559,7 +559,8 @@ func (r *Run) stolenBabiesBalance() {
 			}
 			guard := false
 			for _, g := range Guards(st.Block()) {
-				if b, ok := g.Cond.(*ssa.BinOp); ok && b.Op == token.GTR && g.True && b.X == pv {
+				// any spelling of "the pool is positive": pool > 0, 0 < pool, pool >= 1, !(pool <= 0) (guard clause) ...
+				if x, k, isGE := c02AtLeast(g.Cond, g.True); isGE && k == 1 && x == pv {
 					guard = true
 				}
 			}
@@ -789,8 +790,8 @@ func (r *Run) apportionmentFixup() {
 			}
 			if _, elems, ok := appendCall(c); ok && len(elems) == 1 && tm.Of(elems[0]).String() == "recv.Species[*]" {
 				for _, g := range Guards(c.Block()) {
-					gt := tm.Of(g.Cond)
-					if gt.Op == "bin" && gt.Name == ">" && g.True && gt.Args[0].String() == "recv.Species[*].ExpectedOffspring" && gt.Args[1].String() == "0" {
+					// any spelling of "the quota is positive": EO > 0, 0 < EO, EO >= 1, !(EO <= 0), !(EO < 1) ...
+					if x, k, isGE := c02AtLeast(g.Cond, g.True); isGE && k == 1 && tm.Of(x).String() == "recv.Species[*].ExpectedOffspring" {
 						okKeep = true
 					}
 				}
@@ -956,8 +957,15 @@ func (r *Run) partitionAndAgeing() {
 	r.Check(okAge && okNovel && nAge == 1, "purgeOrAgeSpecies.ageing", p.Pos(poa.Pos()), "surviving species age by one; a species founded in this turnover only loses its novel mark", fmt.Sprintf("ageing: Age+1 exactly for non-novel surviving species=%v (stores to Age: %d), novel mark cleared instead=%v", okAge, nAge, okNovel))
 	// nobody else ages species during an epoch
 	var others []string
+	pinned := PinnedFuncs()
 	for _, f := range p.SrcFuncs() {
 		if f == poa {
+			continue
+		}
+		// the declaration of a new unexported helper that nothing refers to any more (every call of it was expanded
+		// in place by the normaliser) is never executed: its stores are examined in the functions they were expanded
+		// into - in purgeOrAgeSpecies by the ageing obligation above, anywhere else by this one
+		if p.expandedAway(f, pinned) {
 			continue
 		}
 		for _, st := range FieldStores(f, age) {
